@@ -6,6 +6,7 @@ import (
 	"encoding/hex"
 	"fmt"
 	"io"
+	"sync"
 	"testing/iotest"
 
 	"github.com/Comcast/gots/v2/ebp"
@@ -108,6 +109,8 @@ func c05PAT(res *engine.Result, pat psi.PAT) {
 }
 
 func c05SCTE(res *engine.Result, s scte35.SCTE35) {
+	decodedFrom := -1
+	g(res, "SCTE35.Data", func() { decodedFrom = len(s.Data()) })
 	g(res, "SCTE35.getters", func() {
 		sink(s.HasPTS(), s.PTS(), s.Tier(), s.Command(), s.AlignmentStuffing(), s.Data())
 	})
@@ -162,6 +165,14 @@ func c05SCTE(res *engine.Result, s scte35.SCTE35) {
 	g(res, "SCTE35.String", func() { sink(s.String()) })
 	var enc []byte
 	g(res, "SCTE35.UpdateData", func() { enc = s.UpdateData() })
+	// memory bounded by a small multiple of the input: what was decoded from n bytes and has not been
+	// touched by any setter cannot re-encode to far more than n bytes (a decoder that trusts a length
+	// field beyond the input manufactures content). The factor 16 (+256) tolerates the few-fold growth
+	// of lists padded out from missing bytes (an 8-bit length can add at most ~250 bytes); it is far
+	// below the thousand-fold growth of a 16-bit length that is not checked against the input.
+	if decodedFrom >= 0 && len(enc) > 16*decodedFrom+256 {
+		res.Failf("SCTE35.UpdateData|output-far-larger-than-the-decoded-input", "a section of %d bytes decodes and re-encodes to %d bytes", decodedFrom, len(enc))
+	}
 	if enc != nil {
 		g(res, "NewSCTE35(UpdateData())", func() { sink(scte35.NewSCTE35(append([]byte{0}, enc...))) })
 	}
@@ -318,7 +329,9 @@ func c05PacketModifiers(res *engine.Result, in []byte) {
 	for _, n := range []int{0, 1, 100, 181, 200} {
 		n := n
 		mod("AdaptationField.SetTransportPrivateData", func(_ *packet.Packet, af *packet.AdaptationField) { sink(af.SetTransportPrivateData(make([]byte, n))) })
-		mod("AdaptationField.SetAdaptationFieldExtension", func(_ *packet.Packet, af *packet.AdaptationField) { sink(af.SetAdaptationFieldExtension(make([]byte, n))) })
+		mod("AdaptationField.SetAdaptationFieldExtension", func(_ *packet.Packet, af *packet.AdaptationField) {
+			sink(af.SetAdaptationFieldExtension(make([]byte, n)))
+		})
 	}
 }
 
@@ -578,7 +591,7 @@ func init() {
 	add(c05Entry{name: "packet-modifiers", kind: kindPacket, readOnly: false, seeds: "packet", run: c05PacketModifiers})
 	add(c05Entry{name: "packet-psi", kind: kindPacket, readOnly: true, seeds: "packet", run: c05PacketPSI})
 	add(c05Entry{name: "stream-readers", kind: kindStream, readOnly: true, seeds: "stream", run: c05Streams})
-	engine.RegisterIsolated("C05", "short-strings", "seed-mutations", "seed-double-mutations", "long-inputs", "packet-grid", "stream-sequences", "generated-scte35")
+	engine.RegisterIsolated("C05", "short-strings", "seed-mutations", "seed-double-mutations", "long-inputs", "packet-grid", "stream-sequences", "generated-scte35", "generated-pmt")
 }
 
 func c05EntryByName(n string) *c05Entry {
@@ -1018,6 +1031,41 @@ func c05Check(c c05Case) engine.Result {
 				break
 			}
 		}
+	case "gen-pmt":
+		// A = base table, B = delta applied to section_length (-8..+8); the check multiplies out deltas of
+		// program_info_length (-3..3), of the ES_info_length of the last stream that has descriptors (-6..6)
+		// and of that stream's last descriptor_length (-4..4): related length fields that are wrong TOGETHER,
+		// with the stale CRC_32 and with a CRC_32 recomputed where the new section_length puts it
+		base := c05GenPMTBases()[c.A]
+		set12 := func(b []byte, off, v int) {
+			v &= 0xFFF
+			b[off] = b[off]&0xF0 | byte(v>>8)
+			b[off+1] = byte(v)
+		}
+		for dPIL := -3; dPIL <= 3; dPIL++ {
+			for dES := -6; dES <= 6; dES++ {
+				for dDL := -4; dDL <= 4; dDL++ {
+					in := append([]byte(nil), base.payload...)
+					set12(in, 2, base.sl+c.B)
+					set12(in, 11, base.pil+dPIL)
+					if base.esOff > 0 {
+						set12(in, base.esOff, base.es+dES)
+						in[base.dlOff] = byte(int(in[base.dlOff]) + dDL)
+					} else if dES != 0 || dDL != 0 {
+						continue
+					}
+					c05Exec(&res, e, in, &scratch)
+					if end := 1 + 3 + base.sl + c.B; end >= 8 && end <= len(in) {
+						crc := ref.CRC32MPEG2(in[1 : end-4])
+						in[end-4], in[end-3], in[end-2], in[end-1] = byte(crc>>24), byte(crc>>16), byte(crc>>8), byte(crc)
+						c05Exec(&res, e, in, &scratch)
+					}
+				}
+			}
+			if len(res.Fail) > 60 {
+				break
+			}
+		}
 	case "gen-scte35":
 		// A = descriptor-loop shape, B = UPID/MID variant of the segmentation descriptors
 		sec := c05GenSCTE(c.A, c.B)
@@ -1049,6 +1097,52 @@ func c05Check(c c05Case) engine.Result {
 	res.Nontrivial = res.Evals
 	res.Outcome(c.Entry, c.Family, len(res.Fail) > 0)
 	return res
+}
+
+type c05PMTBase struct {
+	payload      []byte
+	sl, pil, es  int
+	esOff, dlOff int // payload offsets of the last described stream's ES_info_length and of its last descriptor_length (0: none)
+}
+
+var c05PMTBasesOnce sync.Once
+var c05PMTBasesV []c05PMTBase
+
+// c05GenPMTBases: reference-built tables (pointer_field 0) with the offsets of their length fields.
+func c05GenPMTBases() []c05PMTBase {
+	c05PMTBasesOnce.Do(func() {
+		lang := ref.Desc{Tag: 0x0A, Body: []byte("eng\x01")}
+		secs := []ref.PMTSection{
+			{Program: 1, Version: 3, CurrentNext: true, PCRPID: 0x65, Streams: []ref.Stream{{Type: 0x1B, PID: 0x65}, {Type: 0x0F, PID: 0x66, Descs: []ref.Desc{lang}}}},
+			{Program: 2, Version: 9, CurrentNext: true, PCRPID: 0x65, ProgDescs: []ref.Desc{{Tag: 0x05, Body: []byte("CUEI")}},
+				Streams: []ref.Stream{{Type: 0x24, PID: 0x101, Descs: []ref.Desc{{Tag: 0x0E, Body: []byte{0xC0, 0x12, 0x34}}, lang}}, {Type: 0x86, PID: 0x103}}},
+			{Program: 3, Version: 1, CurrentNext: true, PCRPID: 0x1FFF, Streams: []ref.Stream{{Type: 0x02, PID: 0x20}}},
+			{Program: 4, Version: 2, CurrentNext: true, PCRPID: 0x21, ProgDescs: []ref.Desc{lang},
+				Streams: []ref.Stream{{Type: 0x1B, PID: 0x21}, {Type: 0x0F, PID: 0x22, Descs: []ref.Desc{lang, {Tag: 0x52, Body: []byte{1}}, {Tag: 0x7F, Body: []byte{0x20, 'e', 'n', 'g', 0x40}}}}}},
+		}
+		for _, sec := range secs {
+			p := append(ref.Pointer(0), sec.Bytes()...)
+			b := c05PMTBase{payload: p}
+			b.sl = int(p[2]&0x0F)<<8 | int(p[3])
+			b.pil = int(p[11]&0x0F)<<8 | int(p[12])
+			off := 13 + b.pil
+			for off+5 <= len(p)-4 {
+				es := int(p[off+3]&0x0F)<<8 | int(p[off+4])
+				if es > 0 {
+					b.esOff, b.es = off+3, es
+					// walk to the last descriptor of this stream
+					d := off + 5
+					for d+2 <= off+5+es {
+						b.dlOff = d + 1
+						d += 2 + int(p[d+1])
+					}
+				}
+				off += 5 + es
+			}
+			c05PMTBasesV = append(c05PMTBasesV, b)
+		}
+	})
+	return c05PMTBasesV
 }
 
 // c05GenSCTE builds a structurally consistent splice_info_section (all lengths and the CRC right) whose
@@ -1105,17 +1199,19 @@ func c05StreamAlphabet() [][188]byte {
 		return c05StreamAlpha
 	}
 	var out [][188]byte
-	pad := func(b []byte) []byte { return append(append([]byte{}, b...), bytes.Repeat([]byte{0xFF}, 184-len(b))...) }
+	pad := func(b []byte) []byte {
+		return append(append([]byte{}, b...), bytes.Repeat([]byte{0xFF}, 184-len(b))...)
+	}
 	pat := ref.PATSection{TSID: 1, Version: 2, CurrentNext: true, Entries: []ref.PATEntry{{Program: 1, PID: 0x64, Reserved: 7}}}
 	pmt := ref.PMTSection{Program: 1, Version: 3, CurrentNext: true, PCRPID: 0x65, Streams: []ref.Stream{{Type: 0x1B, PID: 0x65}, {Type: 0x0F, PID: 0x66, Descs: []ref.Desc{{Tag: 0x0A, Body: []byte("eng\x00")}}}}}
 	patPay := pad(append(ref.Pointer(0), pat.Bytes()...))
 	pmtPay := pad(append(ref.Pointer(0), pmt.Bytes()...))
-	out = append(out, ref.CarryPayload(0, true, 0, patPay))                      // 0 good PAT
-	out = append(out, ref.CarryPayload(0x64, true, 0, pmtPay))                   // 1 good PMT
-	out = append(out, ref.CarryPayload(0x64, true, 1, pmtPay[:3]))               // 2 PMT start with 3 payload bytes
-	out = append(out, ref.CarryPayload(0x64, false, 2, pmtPay[3:]))              // 3 PMT continuation
-	out = append(out, ref.CarryPayload(0x1FFF, false, 0, pad(nil)))              // 4 null packet
-	bad := ref.CarryPayload(0, true, 1, patPay)                                  // 5 PAT with section_length 0x3FF
+	out = append(out, ref.CarryPayload(0, true, 0, patPay))         // 0 good PAT
+	out = append(out, ref.CarryPayload(0x64, true, 0, pmtPay))      // 1 good PMT
+	out = append(out, ref.CarryPayload(0x64, true, 1, pmtPay[:3]))  // 2 PMT start with 3 payload bytes
+	out = append(out, ref.CarryPayload(0x64, false, 2, pmtPay[3:])) // 3 PMT continuation
+	out = append(out, ref.CarryPayload(0x1FFF, false, 0, pad(nil))) // 4 null packet
+	bad := ref.CarryPayload(0, true, 1, patPay)                     // 5 PAT with section_length 0x3FF
 	bad[6], bad[7] = 0xB3, 0xFF
 	out = append(out, bad)
 	bad = ref.CarryPayload(0x64, true, 3, pmtPay) // 6 PMT with section_length 0x3FF
@@ -1227,6 +1323,15 @@ func c05Gen(family string) func(r *engine.Run, emit func(c05Case)) {
 						emit(c05Case{Entry: e.name, Family: "grid", A: afc, B: l})
 					}
 				}
+			case "gen-pmt":
+				if e.seeds != "pmt" && e.name != "psi.PmtAccumulatorDoneFunc" && e.name != "psi.ExtractCRC" {
+					continue
+				}
+				for a := range c05GenPMTBases() {
+					for d := -8; d <= 8; d++ {
+						emit(c05Case{Entry: e.name, Family: "gen-pmt", A: a, B: d})
+					}
+				}
 			case "gen-scte35":
 				if e.name != "scte35.NewSCTE35" {
 					continue
@@ -1278,6 +1383,7 @@ func init() {
 			c05Scenario("seed-double-mutations", "mut2", "pairs of mutations (position1 < position2, both from 16 interesting values 00,01,02,03,0D,34,47,7F,80,90,B0,F0,FC,FD,FE,FF) on every 4th seed (thorough: every seed) of every byte-string and packet entry point."+common),
 			c05Scenario("long-inputs", "long", "index-wraparound family: for every seed and every cut position up to 20 (thorough 40), the valid prefix is extended with each of 6 fills (00, 80, 90, FF, (01 FC)*, (01 00)*) to total lengths {255,256,257,300} and, for the SCTE-35/PMT/accumulator-predicate entry points, {4096,65535,65536,65537,65545,65600}, each also with 0xFFFF planted at every 2-byte position before the cut (makes 8-/16-bit cursors and length fields wrap); plus two-segment tails (a run of 80/90/FF ending at every position 243..258 followed by 00/10/7F, total 300 bytes) for chains that end next to the 8-bit cursor limit."+common),
 			c05Scenario("generated-scte35", "gen-scte35", "structure-aware SCTE-35 inputs built by the reference encoder with all lengths and the CRC consistent: every descriptor-loop shape of <=3 descriptors over {segmentation, foreign tag 00, foreign tag 01} x 46 UPID/MID variants of the segmentation descriptors (none, single ADI, MIDs of 1..3 entries, stream-switch style MIDs whose ADI text is one of {BLACKOUT, BLACKOUT:, BLACKOUT:abc, xxBLACKOUT, empty, BLACKOUT:BLACKOUT, BLACKOU} and whose ADS text matches / contains / lacks the rotation keyword, delivery restricted or not); each section whole and cut at every byte; all getters incl. StreamSwitchSignalId, the state tracker, String and re-encoding run on whatever decodes."+common),
+			c05Scenario("generated-pmt", "gen-pmt", "structure-aware PMT inputs: 4 reference-built tables x every combination of deltas on four RELATED length fields (section_length -8..+8, program_info_length -3..+3, ES_info_length of the last described stream -6..+6, its last descriptor_length -4..+4), each with the stale CRC_32 and with a CRC_32 recomputed where the new section_length puts it; run through NewPMT (all getters, printers), the accumulator completion predicate and ExtractCRC."+common),
 			c05Scenario("packet-grid", "grid", "packet accessors, modifiers and packet-level PSI helpers on packets with adaptation_field_control 0..3 x adaptation_field_length from 30 boundary values (thorough: all 256) x all 256 flag bytes x private-data length and extension length bytes from {00,01,7F,B0,FF} plus the four values around 'ends exactly on the last byte of the packet' for the given flags, placed where the flags put them."+common),
 			c05Scenario("stream-sequences", "streamseq", "stream readers (Sync, IsSynced, ReadPAT, ReadPMT, IOWriter Write/ReadFrom, the cli pipeline) on every sequence of <=3 packets from a 14-packet alphabet (good PAT/PMT, PMT split 3+rest, null, and single-field corruptions: section_length 0x3FF, pointer_field 0xFF, ES_info_length/program_info_length 0xFFF, adaptation_field_length 0xFF/183, AF-only, no sync byte), whole and — for sequences of <=2 (quick: a subset) — cut at every byte length; default and one-byte-at-a-time readers."+common),
 		},
